@@ -98,6 +98,21 @@ def be16 (v : UInt16) : Bytes := [(v >>> 8).toUInt8, v.toUInt8]
 def be32 (v : UInt32) : Bytes :=
   [UInt8.ofNat (v.toNat / 16777216), UInt8.ofNat (v.toNat / 65536), UInt8.ofNat (v.toNat / 256), UInt8.ofNat v.toNat]
 
+/-- the eight bytes `PutUint64` / `AppendUint64` write -/
+def be64 (v : UInt64) : Bytes :=
+  [UInt8.ofNat (v.toNat / 72057594037927936), UInt8.ofNat (v.toNat / 281474976710656), UInt8.ofNat (v.toNat / 1099511627776),
+   UInt8.ofNat (v.toNat / 4294967296), UInt8.ofNat (v.toNat / 16777216), UInt8.ofNat (v.toNat / 65536), UInt8.ofNat (v.toNat / 256),
+   UInt8.ofNat v.toNat]
+
+/-- `copy(b[lo:hi], src)` for a slice `b` the function owns: the first `min (hi-lo) (len src)` bytes from `lo` are overwritten -/
+def copyAt (b : Bytes) (lo hi : Int) (src : Bytes) : X Bytes :=
+  if 0 ≤ lo ∧ lo ≤ hi ∧ hi ≤ (b.length : Int) then
+    .ok (b.take lo.toNat ++ src.take (hi.toNat - lo.toNat) ++ b.drop (lo.toNat + min (hi.toNat - lo.toNat) src.length))
+  else .panic
+
+/-- `strings.ReplaceAll(s, "<c>", "")` for a one-byte ASCII pattern -/
+def removeByte (s : Bytes) (c : Byte) : Bytes := s.filter (· != c)
+
 /-- `binary.BigEndian.PutUint16(b[lo:hi], v)` for a slice `b` the function owns: bytes `lo`, `lo+1` are overwritten -/
 def putU16At (b : Bytes) (lo hi : Int) (v : UInt16) : X Bytes :=
   if 0 ≤ lo ∧ lo ≤ hi ∧ hi ≤ (b.length : Int) ∧ 2 ≤ hi - lo then
